@@ -5,13 +5,16 @@
 ;;   (env id (iset ...) (name ...))   (apply environment isets), then probe every name in order
 ;;   [top-level (import ...) programs are separate processes: props/C14.py pastes the PROBE section below
 ;;    into a generated program whose first form is (import (scheme base) ... <import sets>)]
+;;   (frames id (iset ...))           (apply environment isets), then (env-exports frame) of each frame down the
+;;                                    parent chain (2n+1 frames)  -- function-level tie to Env.env_import
 ;;   (load id libname)                (environment 'libname): OK or (ERR message)  -- module table state machine
 ;;   (resolve id datum)               (%resolve-import datum)  -- function-level tie to the translated code
 ;;   (drop id a b) (append id a b)    symbol-drop / symbol-append
 ;; probe of a name: the tagged value it evaluates to, or, when it is a procedure or a macro of the generated
 ;; libraries, the tagged value of (name); otherwise the symbol unbound.
 (import (scheme base) (scheme write) (scheme read) (scheme eval) (scheme file) (scheme process-context)
-        (scheme repl) (only (meta) %resolve-import symbol-drop symbol-append))
+        (scheme repl) (only (meta) %resolve-import symbol-drop symbol-append)
+        (only (chibi ast) env-parent) (only (chibi) env-exports))
 
 ;;; BEGIN PROBE
 (define (c14-tagged? v)
@@ -51,6 +54,13 @@
        (let ((env (guard (e (#t (list 'IMPORT-ERROR (c14-msg e))))
                     (apply environment (car (cddr form))))))
          (c14-out id (if (pair? env) env (c14-probe env (cadr (cddr form)))))))
+      ((frames)
+       (c14-out id (guard (e (#t (list 'IMPORT-ERROR (c14-msg e))))
+                     (let ((n (+ 1 (* 2 (length (car (cddr form)))))))
+                       (let lp ((e (apply environment (car (cddr form)))) (k 0) (acc '()))
+                         (if (and e (< k n))
+                             (lp (env-parent e) (+ k 1) (cons (env-exports e) acc))
+                             (reverse acc)))))))
       ((load)
        (c14-out id (guard (e (#t (list 'ERR (c14-msg e)))) (environment (car (cddr form))) 'OK)))
       ((resolve)
